@@ -54,6 +54,14 @@ def f64_display(ex, v, opts=None):
     if prov is None:
         hook = ex.side.get('f64_display_hook')
         if hook is not None: return hook(ex, v, opts)
+        src = ex.side.get('float_text_src', {}).get(v.get_id())
+        if src is not None:
+            # a float parsed from text outside the exact fragment (large exponents): its source digits are fixed to the
+            # solver's choice on this path (a stated sampling step, recorded in the decision trace), then std's own printing
+            t = bytes(ex.concretize(b) & 0xff for b in src).decode('ascii', 'replace')
+            ex.side['concretized_float_text'] = True
+            ex.assume(z3.fpEQ(v, z3.FPVal(float(t), F64)) if float(t) == float(t) else z3.fpIsNaN(v))
+            return f64_display(ex, float(t), opts)
         raise Unsupported('Display of a symbolic f64 without decimal provenance')
     if opts and 'precision' in opts: raise Unsupported('precision formatting of symbolic f64')
     # canonical form of a short decimal: no leading zeros, no trailing fraction zeros (exact for <= 15 significant digits)
@@ -167,7 +175,11 @@ def parse_f64_bytes(ex, items):
         if not ex_d: return None
     if i != n: return None
     nd = len(ip) + len(fp)
-    if not has_exp and nd <= 15:
+    # significant digits: concrete trailing zeros of an integer literal only move the decimal point
+    nz = 0
+    if not fp:
+        while nz < len(ip) - 1 and not is_sym(ip[len(ip) - 1 - nz]) and ip[len(ip) - 1 - nz] == 48: nz += 1
+    if not has_exp and (nd <= 15 or (nd - nz <= 15 and nd <= 300)):
         return intern_decimal(ex, neg, ip, fp)
     if has_exp and nd <= 15 and len(ex_d) <= 2 and any(is_sym(d) for d in ex_d):
         # the exponent decides the magnitude: fork over its digit values (at most 100 ways)
@@ -193,12 +205,14 @@ def parse_f64_bytes(ex, items):
             x = z3.fpMul(RNE, x, p) if e >= 0 else z3.fpDiv(RNE, x, p)
             if neg: x = z3.fpNeg(x)
             v = ex.fresh('pf', 'f64'); ex.solver.add(v == x)
+            ex.side.setdefault('float_text_src', {})[v.get_id()] = list(items)
             return v
     # beyond the exact fragment: an unconstrained finite-or-infinite, non-NaN float of the right sign (axiom: std parses it)
     v = ex.fresh('pfu', 'f64')
     ex.solver.add(z3.Not(z3.fpIsNaN(v)))
     ex.solver.add(z3.fpIsNegative(v) if neg else z3.Not(z3.fpIsNegative(v)))
     ex.side.setdefault('axiomatised_floats', []).append(v)
+    ex.side.setdefault('float_text_src', {})[v.get_id()] = list(items)
     return v
 
 
